@@ -62,7 +62,15 @@ fn emit_read<T: PortVal>(out: &mut Out, access: u64, port: u16, dev: u32, f: imp
         Some(v) => format!("ret {}", v.to64()),
         None => "panic".to_string(),
     };
-    out.emit("port_rd", &[access, T::BITS, port as u64, dev as u64], &format!("{} {}", fmt_events(&r.events), ret), true);
+    // `ret` has been formatted: a read sunk below the window has executed by now
+    let stray = trap::take_stray();
+    let tail = if stray > 0 { format!(" stray {}", stray) } else { String::new() };
+    out.emit(
+        "port_rd",
+        &[access, T::BITS, port as u64, dev as u64],
+        &format!("{} {}{}", fmt_events(&r.events), ret, tail),
+        true,
+    );
 }
 
 fn emit_write(out: &mut Out, access: u64, bits: u64, port: u16, val: u64, f: impl FnOnce()) {
@@ -70,6 +78,10 @@ fn emit_write(out: &mut Out, access: u64, bits: u64, port: u16, val: u64, f: imp
     let mut s = fmt_events(&r.events);
     if r.value.is_none() {
         s.push_str(" panic");
+    }
+    let stray = trap::take_stray();
+    if stray > 0 {
+        s.push_str(&format!(" stray {}", stray));
     }
     out.emit("port_wr", &[access, bits, port as u64, val], &s, true);
 }
@@ -94,6 +106,20 @@ fn one_port<T: PortVal>(out: &mut Out, rng: &mut Rng, port: u16, all_u8_values: 
         let p = Port::<T>::new(port);
         let mut q = p.clone();
         q.read()
+    });
+    // the same port read twice in one call (both accesses must happen), and a read whose value is not used
+    // (the access must still happen): an `asm!` block declared `pure` lets an optimising build merge / drop them
+    let d = dev(rng);
+    emit_read::<T>(out, 4, port, d, || unsafe {
+        let mut p = Port::<T>::new(port);
+        let _first = p.read();
+        p.read()
+    });
+    let d = dev(rng);
+    emit_read::<T>(out, 5, port, d, || unsafe {
+        let mut p = Port::<T>::new(port);
+        let _ = p.read();
+        T::from64(0)
     });
     // writes
     let v = (dev(rng) as u64) & mask;
@@ -134,6 +160,8 @@ pub fn boundary_ports() -> Vec<u16> {
 }
 
 pub fn run(out: &mut Out, rng: &mut Rng, tier: Tier) {
+    trap::allow_stray_port_io(true);
+    let _ = trap::take_stray();
     if let Err(e) = trap::selftest() {
         eprintln!("trap selftest FAILED: {}", e);
         std::process::exit(2);
